@@ -318,6 +318,25 @@ func init() {
 		return r
 	}
 	stmtModels[xm+"Range"] = stmtXMapRange
+	models["github.com/puzpuzpuz/xsync/v4.NewMap"] = func(u *Unit, st *State, x *ast.CallExpr, _ *Val, fn *types.Func) *Val {
+		u.trusted["model: xsync.Map is a linearizable map (Load/Store/Delete/LoadOrStore/LoadOrCompute/Range)"] = true
+		t := u.typeOf(x)
+		kt, vt, ok := xsyncMapTypes(t)
+		r := u.alloc(st)
+		if ok {
+			dom, _, ks, _ := u.xmapNames(kt, vt)
+			hd := u.heapGet(st, dom, arrSort(ks, SBool))
+			u.heapSet(st, dom, arrSort(ks, SBool), app("store", hd, r, fmt.Sprintf("((as const %s) false)", arrSort(ks, SBool))))
+		}
+		return &Val{T: t, S: r}
+	}
+	models["github.com/puzpuzpuz/xsync/v4.NewCounter"] = func(u *Unit, st *State, x *ast.CallExpr, _ *Val, fn *types.Func) *Val {
+		u.trusted["model: xsync.Counter is an atomic int64"] = true
+		r := u.alloc(st)
+		h := u.heapGet(st, "XC!counter", SInt)
+		u.heapSet(st, "XC!counter", SInt, app("store", h, r, "0"))
+		return &Val{T: u.typeOf(x), S: r}
+	}
 
 	// xsync.Counter
 	xc := "(*github.com/puzpuzpuz/xsync/v4.Counter)."
